@@ -351,6 +351,10 @@ def poly_pool(tier):
         out.append(p.Sum((p.Power(u, 2), p.Product((-1, u, u)))))
         out.append(p.Product((x, p.Sum((3, -3)), u)))
         out.append(p.Product((p.Sum((u, 1)), p.Sum((u, -1)))))
+    # bases that are not powers as written but expand to a pure power (x**2 + y - y, (x+1)*(x-1) + 1), raised to an integer power next to the like monomial
+    for rb, m_ in ((p.Sum((p.Power(x, 2), y, p.Product((-1, y)))), 2), (p.Sum((p.Product((p.Sum((x, 1)), p.Sum((x, -1)))), 1)), 2), (p.Sum((p.Power(x, 3), 2, -2)), 3)):
+        for n in (2, 3):
+            out += [p.Sum((p.Power(rb, n), p.Power(x, m_ * n))), p.Sum((p.Power(rb, n), p.Product((-1, p.Power(x, m_ * n))))), p.Product((p.Power(rb, n), y))]
     # like terms written differently: a power of a power of a plain variable, split powers, against the plain monomial
     for n, m in ((2, 3), (3, 2), (2, 2), (1, 3), (2, 1), (0, 3), (3, 0)):
         out += [p.Sum((p.Power(p.Power(x, n), m), p.Product((-1, p.Power(x, n * m))))), p.Sum((p.Power(p.Power(x, n), m), p.Power(x, n * m), y)),
@@ -590,6 +594,18 @@ def b_expand(tier):
                    "polynomial inputs (sums, products, non-negative integer powers of variables and constants): no sum beneath a product or integer power, pairwise distinct "
                    "monomials (=> polynomials equal as functions expand to equal term multisets); also commutative=False", bound="as flatten (polynomial + rational pools)",
                    functions=["DistributeMapper.map_sum/map_product/map_power/map_quotient", "distribute", "TermCollector", "CommutativeConstantFoldingMapper"])
+    # polynomials equal as functions expand to sums with equal term multisets (terms compared up to the order of their factors)
+    import pymbolic.primitives as p
+
+    def tkey(t):
+        if isinstance(t, p.Product):
+            return ("P", tuple(sorted(repr(tkey(c)) for c in t.children)))
+        if isinstance(t, p.Power):
+            return ("W", repr(tkey(t.base)), repr(t.exponent))
+        return repr(t)
+
+    def multiset(res):
+        return tuple(sorted(repr(tkey(t)) for t in (res.children if isinstance(res, p.Sum) else (res,))))
     groups = {}
     for e in poly_pool(tier) + rational_pool(tier) + zero_power_pool(tier) + generic_pool(tier):
         r = outcome.run(lambda: distribute(e))
@@ -612,6 +628,13 @@ def b_expand(tier):
             if v:
                 b.fail(Failure("expand", f"what=expand-not-normal{cause} expr={e!r}", dict(kind="expand", expr=repr(e)), expected="expanded normal form", actual=v[:200],
                                functions=["DistributeMapper", "TermCollector"]))
+            else:
+                # a normal form is a fixpoint: expanding the result again changes nothing
+                rr = outcome.run(lambda: distribute(r[1]))
+                b.case(("expand-twice", repr(e)))
+                if rr[0] != "val" or multiset(rr[1]) != multiset(r[1]):
+                    b.fail(Failure("expand", f"what=expand-not-a-fixpoint{cause} expr={e!r}", dict(kind="expand-twice", expr=repr(e)), expected=repr(r[1])[:150], actual=outcome.describe(rr)[:150],
+                                   functions=["DistributeMapper", "TermCollector"]))
         r3 = outcome.run(lambda: DistributeMapper()(e))       # the mapper constructed directly, with its default collector and folder
         b.case(("expand-direct", repr(e)))
         if r3 != r:
@@ -624,18 +647,6 @@ def b_expand(tier):
         else:
             b.fail(Failure("expand", f"what=expand-noncommutative-raised{cause} expr={e!r}", dict(kind="expand-nc", expr=repr(e)), expected="an expression", actual=outcome.describe(r2)[:200],
                            functions=["DistributeMapper"]))
-    # polynomials equal as functions expand to sums with equal term multisets (terms compared up to the order of their factors)
-    import pymbolic.primitives as p
-
-    def tkey(t):
-        if isinstance(t, p.Product):
-            return ("P", tuple(sorted(repr(tkey(c)) for c in t.children)))
-        if isinstance(t, p.Power):
-            return ("W", repr(tkey(t.base)), repr(t.exponent))
-        return repr(t)
-
-    def multiset(res):
-        return tuple(sorted(repr(tkey(t)) for t in (res.children if isinstance(res, p.Sum) else (res,))))
     for key, members in groups.items():
         if len(members) < 2:
             continue
